@@ -6,6 +6,7 @@ From Coq Require Import List NArith String Bool Lia Wf_nat.
 From V Require Import Base.Util Base.Strings Base.Result Model.Registry Model.Settings Model.Subst
   Model.TypePath Model.Derives Model.Generate Model.Equal Model.Shape Proofs.GenProofs
   Proofs.FidelityBase.
+From V Require Import Proofs.SynKey.
 Import ListNotations.
 Open Scope string_scope. Open Scope list_scope.
 
@@ -211,7 +212,8 @@ Section Core.
       rewrite (find_item_none m s _ (prelude_hd _ _ _ _ Hc Ha Htk)); f_equal;
       apply Hsubs; [lia|assumption].
     1,2: (* a generated item *)
-      destruct (forallb ident_lexb (a0 :: a1 :: pl)) eqn:Hlex; [|discriminate];
+      destruct (forallb path_seg_okb (a0 :: a1 :: pl)) eqn:Hlex; [|discriminate];
+      apply forallb_seg_lexb in Hlex;
       assert (Hpt : ptoks = rel_path (s_root s :: t_path t)) by (rewrite Hpath; congruence);
       subst ptoks; clear Hp; rewrite <- Hpath in Hlex;
       assert (Helig : item_eligible s t = true)
